@@ -123,9 +123,10 @@ def dedupClose (v : Array Rat) : Array Rat := Id.run do
     out := (out.push x).push y
   return out
 
-/-- `lenient` (classes route-translate-params*, all nudging options): nudged display routes whose point counts differ
+/-- `lenient` (scenes of the wider class, recognised by their `param` lines: all nudging options): nudged display routes whose point counts differ
     are compared after merging points that coincide to 1e-9 -/
-def checkRouteTranslate (c : Case) (lenient : Bool := false) : CaseResult := Id.run do
+def checkRouteTranslate (c : Case) : CaseResult := Id.run do
+  let lenient := (c.get "param").size > 0
   let tx := numOf c "shift" 0
   let ty := numOf c "shift" 1
   let orth := flag c "orth" == 1
@@ -172,6 +173,7 @@ def checkRouteTranslate (c : Case) (lenient : Bool := false) : CaseResult := Id.
     | _, _ => return { verdict := .specfail s!"route-translate: vector {lab} missing in B or non-finite in A" }
   return { verdict := .ok, nontrivial := bendy > 0,
            stats := [("values.compared", n), ("translate.display.rounded", inexact), ("routes.with.bends", bendy),
+                     ("translate.params.cases", if lenient then 1 else 0), ("params.set", (c.get "param").size), ("params.options.set", (c.get "opt").size),
                      ("finding.lib-assert", la), ("finding.lib-assert.one-frame-only", oneFrame)] }
 
 /-- lower / upper bound of Σ√(sq) -/
@@ -265,7 +267,21 @@ def bendVertices : Route → Nat
   | a :: b :: c :: rest => (if bendWeight a b c = 0 then 0 else 1) + bendVertices (b :: c :: rest)
   | _ => 0
 
+/-- does a leg of the route pass exactly through a corner of a (buffered) shape, the corner strictly inside the leg?
+    Polyline visibility along such a grazing line exists in some frames only (C03's subject); such routes are counted,
+    not judged. -/
+def grazesCorner (sc : Scene) (buf : Rat) (r : Route) : Bool :=
+  (legs r).any (fun l => sc.any (fun R =>
+    let x0 := minR R.a.x R.b.x - buf
+    let x1 := maxR R.a.x R.b.x + buf
+    let y0 := minR R.a.y R.b.y - buf
+    let y1 := maxR R.a.y R.b.y + buf
+    [(⟨x0, y0⟩ : Pt), ⟨x0, y1⟩, ⟨x1, y0⟩, ⟨x1, y1⟩].any (fun k =>
+      crossAt l.1 k l.2 == 0 && decide (dotAt l.1 k l.2 < 0))))
+
 def checkRouteSymmetryParams (c : Case) (crossStage : Bool) : CaseResult := Id.run do
+  let buf := paramOf c 6 (numOf c "buf" 0)
+  let mut grazing := 0
   let orth := flag c "orth" == 1
   let seg := paramOf c 0 (numOf c "pen" 0)
   let ang := paramOf c 1 0
@@ -341,7 +357,8 @@ def checkRouteSymmetryParams (c : Case) (crossStage : Bool) : CaseResult := Id.r
             let hiB := lenHi (sqLens pb) + qb + ang * angleFactorMax * ((bendVertices pb : Nat) : Rat)
             let tol := tolRel * (1 + hiA)
             if loA > hiB + tol || loB > hiA + tol then
-              if crossStage then xDiffers := xDiffers + 1 else
+              if crossStage then xDiffers := xDiffers + 1
+              else if grazesCorner sc buf pa || grazesCorner (F.actScene sc) buf pb then grazing := grazing + 1 else
               return { verdict := .specfail s!"route-symmetry-params: the cost of the polyline route changes under the symmetry: [{ratToString loA}, {ratToString hiA}] vs [{ratToString loB}, {ratToString hiB}] (bends {bends pa} vs {bends pb}, reversing edges {revEdges s d pa} vs {revEdges (F.act s) (F.act d) pb}); {ctx ()}" }
         | _, _ => return { verdict := .specfail s!"route-symmetry-params: sym {symI}: vector {rl}/{pl} missing or non-finite" }
     | _, _ => return { verdict := .specfail s!"route-symmetry-params: vector {rl}/{pl} missing in A or non-finite" }
@@ -350,7 +367,7 @@ def checkRouteSymmetryParams (c : Case) (crossStage : Bool) : CaseResult := Id.r
                      ("sym.other.route.same.cost", otherRoute),
                      ("params.conns.aligned", aligned), ("params.conns.aligned.with.reverse-penalty", alignedRev),
                      ("params.conns.charged.reverse-penalty", revCharged), ("params.no-path", noPath),
-                     ("params.crossing-stage.cost-differs", xDiffers),
+                     ("params.crossing-stage.cost-differs", xDiffers), ("finding.params.polyline-corner-grazing.cost-differs", grazing),
                      ("params.set", (c.get "param").size), ("params.options.set", (c.get "opt").size),
                      ("finding.lib-assert", libAsserts c)] }
 
@@ -450,7 +467,6 @@ def run (_args : List String) : IO UInt32 :=
     else if c.tag == "removeoverlaps-coincident" then checkTwice c "not reproducible (removeoverlaps, coincident centres)"
     else if c.tag == "layout-twice" then checkLayoutTwice c
     else if c.tag == "route-translate" || c.tag == "route-translate-orth" then checkRouteTranslate c
-    else if c.tag == "route-translate-params" || c.tag == "route-translate-params-orth" then checkRouteTranslate c true
     else if c.tag == "route-symmetry-params" then checkRouteSymmetryParams c false
     else if c.tag == "route-symmetry-params-x" then checkRouteSymmetryParams c true
     else if c.tag == "route-symmetry" || c.tag == "route-symmetry-dirs" then checkRouteSymmetry c
